@@ -31,6 +31,12 @@ TV      `exchange record`: N in {8, 64} concurrent clients against a real UDP lo
         request, waits until later packets were received, snapshots again -> Trace_Exchange.
         A client that got no reply (UDP loss) is logged as "lost" and is never a verdict.
 
+        Mode "runt": frames whose body is shorter than a DNS header (0, 1, 2, 11 octets) before, between and behind real
+        messages, whole / cut at every meaningful offset / octet by octet: the raw readers (Conn.Read, readTCP) deliver them
+        like any frame; the header-decoding readers (ReadMsgHeader, ReadMsg) are asked for more after every error and must hand
+        out Stream!HdrReader.carryon or .stop (AMBIG: carry on after a runt or give up), never octets that are not one whole
+        frame's body (seed C12-16: the runt's body left in the stream and taken for the next length prefix).
+
 Mutants (checks/mutants/C12) and the stage that catches each:
   readfull-to-read-client.diff   io.ReadFull -> Read in Conn.ReadMsgHeader      [GEN stream/ReadMsgHeader|ReadMsg/message-mangled]
   readfull-to-read-server.diff   io.ReadFull -> Read in Server.readTCP          [GEN stream/readTCP/message-mangled]
@@ -180,6 +186,7 @@ def run(ctx):
             lambda: gen_replay(ctx, binp, "eof", 2, [ctx.seed % 2]),
             lambda: gen_replay(ctx, binp, "shortw", 2, [ctx.seed % 2]),
             lambda: gen_replay(ctx, binp, "refuse"),
+            lambda: gen_replay(ctx, binp, "runt", 2, [ctx.seed % 2]),
             lambda: gen_replay(ctx, binp, "id"),
             lambda: gen_replay(ctx, binp, "repoint"),
             lambda: race_run(ctx),
@@ -199,6 +206,7 @@ def run(ctx):
             lambda: gen_replay(ctx, binp, "eof", 2, range(2)),
             lambda: gen_replay(ctx, binp, "shortw", 2, range(2)),
             lambda: gen_replay(ctx, binp, "refuse"),
+            lambda: gen_replay(ctx, binp, "runt", 2, range(2)),
             lambda: gen_replay(ctx, binp, "id"),
             lambda: gen_replay(ctx, binp, "repoint"),
             lambda: race_run(ctx),
